@@ -149,6 +149,10 @@ func c18Corpus() []*c18Case {
 		b.link(c18None, "outside")
 		b.file("x", "PWNED")
 	})
+	// the first entry is a link / a device at the destination path itself
+	add("corpus-root-link", func(b *c18B) { b.link(c18None, "outside"); b.file("x", "PWNED"); b.dir("sub"); b.file("y", "PWNED"); b.bye() })
+	add("corpus-root-link-abs", func(b *c18B) { b.link(c18None, "@SB@/outside"); b.file("x", "PWNED") })
+	add("corpus-root-device", func(b *c18B) { b.dev(c18None, sIFIFO|0644); b.file("x", "PWNED") })
 	// link then the same name
 	for k := 0; k < 5; k++ {
 		k := k
